@@ -141,7 +141,13 @@ func (P *Program) expandAuto(c *Contract, fn *ssa.Function) error {
 	}
 	// fields of the per-record context that only set/setentry write (added to whatever the contract lists)
 	for _, d := range []string{"PrintCtx.off", "PrintCtx.lvl", "PrintCtx.msg", "PrintCtx.kvps", "PrintCtx.now", "PrintCtx.stackFrame",
-		"PrintCtx.jsonMode", "PrintCtx.noColor", "PrintCtx.layout", "PrintCtx.utcTime", "PrintCtx.noQuoted", "PrintCtx.dedupeAttrs"} {
+		"PrintCtx.jsonMode", "PrintCtx.noColor", "PrintCtx.layout", "PrintCtx.utcTime", "PrintCtx.noQuoted", "PrintCtx.dedupeAttrs",
+		// carried from record to record by the pooled context: the attribute key prefix (restored by every
+		// serializer that sets it) and the grouped-mode switch (never set)
+		"PrintCtx.prefix", "PrintCtx.inGroupedMode"} {
+		if hasStr(c.NoKeeps, d) {
+			continue
+		}
 		if !hasStr(c.Keeps, d) {
 			c.Keeps = append(c.Keeps, d)
 		}
